@@ -222,13 +222,20 @@ impl MeasurementErrorEstimator {
     }
 
     fn measurement_variance(&self, config: &KalmanConfiguration) -> f64 {
-        if self.fill < config.difference_estimation_boundary {
+        // A set of identical samples has zero spread. A measurement variance of
+        // exactly zero makes the filter's covariance singular (0/0 on the next
+        // update), so never report less than (1 ps)^2.
+        const MIN_VARIANCE: f64 = 1e-24;
+
+        let variance = if self.fill < config.difference_estimation_boundary {
             sqr(config.steer_time.seconds())
         } else if self.fill < config.statistical_estimation_boundary {
             sqr(self.range_size())
         } else {
             self.variance() / 2.0
-        }
+        };
+
+        variance.max(MIN_VARIANCE)
     }
 
     fn peer_delay(&self) -> bool {
